@@ -127,23 +127,16 @@ public:
 
     IndexType getIndexFromBoxPos(const std::array<long int,Dim>& inBoxPos) const{
         IndexType index = 0x0LL;
-        IndexType mask = 0x1LL;
 
-        bool shouldContinue = false;
-
-        std::array<IndexType,Dim> mcoord;
+        long int allBits = 0;
         for(long int idxDim = 0 ; idxDim < Dim ; ++idxDim){
-            mcoord[idxDim] = (inBoxPos[idxDim] << (Dim - idxDim - 1));
-            shouldContinue |= ((mask << (Dim - idxDim - 1)) <= mcoord[idxDim]);
+            allBits |= inBoxPos[idxDim];
         }
 
-        while(shouldContinue){
-            shouldContinue = false;
-            for(long int idxDim = Dim-1 ; idxDim >= 0 ; --idxDim){
-                index |= (mcoord[idxDim] & mask);
-                mask <<= 1;
-                mcoord[idxDim] <<= (Dim-1);
-                shouldContinue |= ((mask << (Dim - idxDim - 1)) <= mcoord[idxDim]);
+        // Interleave bit by bit (dim 0 is the most significant inside each group of Dim bits)
+        for(long int idxBit = 0 ; (allBits >> idxBit) != 0 ; ++idxBit){
+            for(long int idxDim = 0 ; idxDim < Dim ; ++idxDim){
+                index |= (((inBoxPos[idxDim] >> idxBit) & IndexType(1)) << (idxBit*Dim + (Dim - idxDim - 1)));
             }
         }
 
@@ -168,8 +161,8 @@ public:
             }
         }
 
-        const long int boxLimite = (1 << (inLevel));
-        const long int boxLimiteParent = (1 << (inLevel-1));
+        const long int boxLimite = (1L << (inLevel));
+        const long int boxLimiteParent = (1L << (inLevel-1));
 
         const IndexType cellIndex = inMIndex;
         const auto cellPos = getBoxPosFromIndex(cellIndex);
@@ -300,8 +293,8 @@ public:
             }
         }
 
-        const long int boxLimite = (1 << (inLevel));
-        const long int boxLimiteParent = (1 << (inLevel-1));
+        const long int boxLimite = (1L << (inLevel));
+        const long int boxLimiteParent = (1L << (inLevel-1));
 
         for(long int idxCell = 0 ; idxCell < inGroup.getNbCells() ; ++idxCell){
             const IndexType cellIndex = inGroup.getCellSpacialIndex(idxCell);
@@ -426,7 +419,7 @@ public:
 
     auto getNeighborListForIndex(const IndexType cellIndex, const long int inLevel, const bool upperExclusion = false) const{
         assert(inLevel >= 0);
-        const long int boxLimite = (1 << (inLevel));
+        const long int boxLimite = (1L << (inLevel));
 
         std::vector<IndexType> indexes;
         indexes.reserve(TbfUtils::lipow(3,Dim)/2);
@@ -523,7 +516,7 @@ public:
     template <class GroupClass>
     auto getNeighborListForBlock(const GroupClass& inGroup, const long int inLevel, const bool upperExclusion = false, const bool testSelfInclusion = true) const{
         assert(inLevel >= 0);
-        const long int boxLimite = (1 << (inLevel));
+        const long int boxLimite = (1L << (inLevel));
 
         std::vector<TbfXtoXInteraction<IndexType>> indexesInternal;
         indexesInternal.reserve(inGroup.getNbLeaves());
